@@ -36,6 +36,100 @@ def pump_array(inp):
     return {"ok": witness is None, "cases": cases, "witness": witness}
 
 
+def sum_by_group(inp):
+    """both implementations of _sum_by_group against the group-sum specification"""
+    from pandapipes.pf.internals_toolbox import _sum_by_group
+    labels = [0, 1, 2, 7, 99999, 100000, 300000]
+    cases, witness = 0, None
+    for n in range(0, 6):
+        for idx in itertools.product(labels, repeat=n):
+            spec = {}
+            for k, l in enumerate(idx):
+                a, b = spec.get(l, (0.0, 0.0))
+                spec[l] = (a + 2.0 ** k, b + 1.0)
+            keys = sorted(spec)
+            for use_numba in (False, True):
+                cases += 1
+                ind = np.array(idx, dtype=np.int64)
+                v1 = np.array([2.0 ** k for k in range(n)], dtype=np.float64)
+                v2 = np.ones(n, dtype=np.float64)
+                try:
+                    res = _sum_by_group(use_numba, ind, v1, v2)
+                    ok = (list(np.asarray(res[0]).tolist()) == keys
+                          and np.asarray(res[1]).tolist() == [spec[k][0] for k in keys]
+                          and np.asarray(res[2]).tolist() == [spec[k][1] for k in keys]
+                          and ind.tolist() == list(idx))
+                    obs = [np.asarray(r).tolist() for r in res]
+                except Exception as e:  # noqa
+                    ok, obs = False, "%s: %s" % (type(e).__name__, str(e)[:120])
+                if not ok and witness is None:
+                    witness = {"indices": list(idx), "use_numba": use_numba, "observed": obs,
+                               "expected": [keys, [spec[k][0] for k in keys], [spec[k][1] for k in keys]]}
+    return {"ok": witness is None, "cases": cases, "witness": witness}
+
+
+def _relabel_net(jl, pl, porder, jorder, use_numba, mode="sequential"):
+    import pandapipes as pp
+    net = pp.create_empty_network(fluid="water")
+    # physical system: junctions A,B,C,D; pipes A-B (1 section), B-C (2), C-D (3); valve B-D; sinks at C, D
+    heights = {0: 0.0, 1: 2.0, 2: 5.0, 3: 1.0}
+    for j in jorder:
+        pp.create_junction(net, pn_bar=5, tfluid_k=350, height_m=heights[j], index=jl[j])
+    pipes = {0: (0, 1, 0.4, 1, 100.), 1: (1, 2, 0.9, 2, 80.), 2: (2, 3, 1.3, 3, 65.)}
+    for k in porder:
+        a, b, le, sec, d = pipes[k]
+        pp.create_pipe_from_parameters(net, jl[a], jl[b], le, d, sections=sec, u_w_per_m2k=15 + 5 * k, text_k=283,
+                                       index=pl[k])
+    pp.create_valve(net, jl[1], jl[3], "ju", 50., opened=True, loss_coefficient=1.0)
+    pp.create_valve(net, jl[2], pl[2], "pi", 60., opened=True, loss_coefficient=0.5)
+    pp.create_ext_grid(net, jl[0], p_bar=5, t_k=350)
+    pp.create_sink(net, jl[2], 0.6)
+    pp.create_sink(net, jl[3], 0.3)
+    pp.pipeflow(net, mode=mode, use_numba=use_numba)
+    return net
+
+
+def relabel_pipeline(inp):
+    """whole calculation under relabelling / row permutation of junctions and multi-section pipes"""
+    jls = [[0, 1, 2, 3], [7, 3, 11, 5], [100001, 4, 250000, 17]]
+    pls = [[0, 1, 2], [5, 2, 9], [200000, 3, 1]]
+    jorders = [[0, 1, 2, 3], [2, 0, 3, 1]]
+    ref = None
+    cases, witness = 0, None
+    for use_numba in (False, True):
+        for jl in jls:
+            for pl in pls:
+                for porder in itertools.permutations(range(3)):
+                    for jorder in jorders:
+                        cases += 1
+                        try:
+                            net = _relabel_net(jl, pl, list(porder), jorder, use_numba)
+                            got = {"junction": np.array([net.res_junction.loc[jl[j]].values for j in range(4)], dtype=float),
+                                   "pipe": np.array([net.res_pipe.loc[pl[k]].values for k in range(3)], dtype=float),
+                                   "valve": net.res_valve.values.astype(float), "sink": net.res_sink.values.astype(float),
+                                   "ext_grid": net.res_ext_grid.values.astype(float)}
+                        except Exception as e:  # noqa
+                            got = "%s: %s" % (type(e).__name__, str(e)[:160])
+                        if ref is None:
+                            ref = got
+                            if isinstance(ref, str):
+                                return {"ok": False, "cases": cases, "witness": {"error": ref}}
+                            continue
+                        bad = None
+                        if isinstance(got, str):
+                            bad = got
+                        else:
+                            for tname in ref:
+                                if got[tname].shape != ref[tname].shape or not np.allclose(
+                                        got[tname], ref[tname], rtol=1e-7, atol=1e-9, equal_nan=True):
+                                    bad = "res_%s differs: %s vs %s" % (tname, got[tname].tolist(), ref[tname].tolist())
+                                    break
+                        if bad and witness is None:
+                            witness = {"junction_labels": jl, "pipe_labels": pl, "pipe_creation_order": list(porder),
+                                       "junction_creation_order": jorder, "use_numba": use_numba, "what": bad[:600]}
+    return {"ok": witness is None, "cases": cases, "witness": witness}
+
+
 def main():
     inp = json.load(sys.stdin)
     fn = globals()[inp["what"]]
